@@ -119,6 +119,10 @@ TABLE.update({
     "c14_reserved_signal_only_warns.diff": ("contracts.c14b", "_emit_reserved_signal_diagnostic", None),
     "c14_unknown_signal_accepted.diff": ("contracts.c14b", "validate_signal_type_with_error", None),
     "c14_memdecl_reserved_not_checked.diff": ("contracts.c14b", "visit_MemDecl", None),
+    "c14_bundle_op_bundle_accepted.diff": ("contracts.c14b", "infer_binary_op_type", None),
+    "c01_mixed_signals_use_right_type.diff": ("contracts.c14b", "_check_signal_type_compatibility", None),
+    "c01_comparison_result_prefers_right.diff": ("contracts.c14b", "infer_binary_op_type", None),
+    "c01_logical_result_not_comparison.diff": ("contracts.c14b", "infer_binary_op_type", None),
     "c08_preserved_shares_network_zero.diff": ("contracts.c12", "_restore_preserved_connection", None),
     "c08_preserved_routing_failure_ignored.diff": ("contracts.c12", "_restore_preserved_connection", None),
     "c08_preserved_span_doubled.diff": ("contracts.c12", "_restore_preserved_connection", None),
